@@ -318,7 +318,7 @@ func (e *c18Env) run(cs c18Case) {
 }
 
 func C18(c *core.Ctx) {
-	c.Rule = "the sample CCEL (testing/testdata/ccel) and prefixes of it cut at event boundaries, with quotes carrying the sample's header and TD body (nonce-bound REPORT_DATA) and the RTMR values that the chosen log replays to, signed under a freshly generated PKI: {valid | each signature / chain / trust / expiry / collateral fault} x {default policy satisfied | each policy field mismatching | nil policy} x {RTMRs matching | single-bit changes in each RTMR, measured or not (quote re-signed so that it stays valid)}; malformed tables and logs; verification at the three option levels. Ground truth is independent: verify.TdxQuote and validate.TdxQuote are called separately, and the log is replayed by hand from go-eventlog's parsed events. The model receives the parsed events and go-eventlog's extraction result as oracles and performs gates, bank construction and replay comparison itself. non-trivial = both gates pass (the replay decides) or a gate-fault case; distinct = distinct (quote, log, options)"
+	c.Rule = "the sample CCEL (testing/testdata/ccel), prefixes of it cut at event boundaries and extensions of it with events spliced in for RTMR[3] and the other registers, with quotes carrying the sample's header and TD body (nonce-bound REPORT_DATA) and the RTMR values that the chosen log replays to, signed under a freshly generated PKI: {valid | each signature / chain / trust / expiry / collateral fault} x {default policy satisfied | each policy field mismatching | nil policy} x {RTMRs matching | single-bit changes in each RTMR, measured or not (quote re-signed so that it stays valid)}; malformed tables and logs; verification at the three option levels. Ground truth is independent: verify.TdxQuote and validate.TdxQuote are called separately, and the log is replayed by hand from go-eventlog's parsed events. The model receives the parsed events and go-eventlog's extraction result as oracles and performs gates, bank construction and replay comparison itself. non-trivial = both gates pass (the replay decides) or a gate-fault case; distinct = distinct (quote, log, options)"
 	read := func(n string) []byte {
 		b, err := readRepoFile("testing/testdata/ccel/" + n)
 		if err != nil {
@@ -410,6 +410,44 @@ func C18(c *core.Ctx) {
 		for i := 0; i < 4; i++ {
 			if lv.replayed[i] != nil {
 				e.run(c18Case{class: "prefix/bit", desc: fmt.Sprintf("log cut after %d bytes, RTMR[%d] one bit off", cut, i), f: flipRtmr(f, i, r.Intn(384)), log: pre, assertState: true, expectState: false})
+			}
+		}
+	}
+
+	// ---- events for every register: the sample log measures RTMR 0..2 only, so events for
+	// RTMR[3] (CC measurement register index 4) and further ones for the others are spliced in
+	// after the last event (before the padding) ----
+	if len(bounds) > 0 {
+		mkEvent := func(ccIdx uint32, data []byte) []byte {
+			d := sha512.Sum384(data)
+			var e []byte
+			e = binary.LittleEndian.AppendUint32(e, ccIdx)
+			e = binary.LittleEndian.AppendUint32(e, 0x0000000d) // EV_IPL
+			e = binary.LittleEndian.AppendUint32(e, 1)
+			e = binary.LittleEndian.AppendUint16(e, 0x000c) // SHA-384
+			e = append(e, d[:]...)
+			e = binary.LittleEndian.AppendUint32(e, uint32(len(data)))
+			return append(e, data...)
+		}
+		last := bounds[len(bounds)-1]
+		for _, regs := range [][]int{{3}, {3, 3}, {0, 3}, {3, 2, 1, 0}} {
+			ext := append([]byte{}, logB[:last]...)
+			for k, i := range regs {
+				ext = append(ext, mkEvent(uint32(i+1), []byte(fmt.Sprintf("verif event %d for rtmr %d", k, i)))...)
+			}
+			ext = append(ext, logB[last:]...)
+			lv := viewLog(ext)
+			if !lv.parsed || lv.replayed[3] == nil {
+				e.run(c18Case{class: "extended", desc: fmt.Sprintf("log with spliced events %v does not parse as intended", regs), f: base, log: ext})
+				continue
+			}
+			f := withRtmrs(lv, base)
+			e.run(c18Case{class: "extended/matching", desc: fmt.Sprintf("events spliced in for RTMR %v (log measures RTMR %s), quote signed over the replay", regs, measured(lv)), f: f, log: ext})
+			e.run(c18Case{class: "extended/sample-quote", desc: fmt.Sprintf("events spliced in for RTMR %v, quote carries the sample's registers", regs), f: base, log: ext, assertState: true, expectState: false})
+			for i := 0; i < 4; i++ {
+				if lv.replayed[i] != nil {
+					e.run(c18Case{class: "extended/bit", desc: fmt.Sprintf("events spliced in for RTMR %v, RTMR[%d] one bit off", regs, i), f: flipRtmr(f, i, r.Intn(384)), log: ext, assertState: true, expectState: false})
+				}
 			}
 		}
 	}
